@@ -121,6 +121,25 @@ theorem compress_ok_iff (e : Env) :
 theorem compress_not_panic (e : Env) (s : String) : compress Z e ≠ .panic s := by
   cases e <;> simp [compress]
 
+/-- `self.compress().unwrap_or_else(|_| self.clone())`: the compressed form, or the element
+itself when it is already elided or encrypted -/
+def compressOrSelf (e : Env) : Env :=
+  match compress Z e with
+  | .ok c => c
+  | _ => e
+
+theorem compressOrSelf_digest (e : Env) : (compressOrSelf Z e).digest = e.digest := by
+  unfold compressOrSelf
+  cases hc : compress Z e with
+  | ok c => exact compress_ok_digest Z hc
+  | _ => rfl
+
+theorem compressOrSelf_isObscured (e : Env) : (compressOrSelf Z e).isObscured = true := by
+  cases e <;> rfl
+
+theorem obscure_compress (e : Env) : obscure A Z .compress e = .ok (compressOrSelf Z e) := by
+  cases e <;> rfl
+
 theorem encryptWithDigest_aad (k n pt : Bytes) (d : Digest) :
     (encryptWithDigest A k n pt d).aad = (digestCbor d).enc := rfl
 
@@ -143,23 +162,21 @@ theorem newEncryptedUnwrap_not_err (m : EncMsg) (site x : String) :
 def IsPlaceholder (act : Action) (y x : Env) : Prop :=
   match act with
   | .elide => x = .elided y.digest
-  | .compress => compress Z y = .ok x
+  | .compress => x = compressOrSelf Z y
   | .encrypt k n => x = .encrypted (encryptWithDigest A k (n y.digest) (encode y) y.digest) y.digest
 
 theorem IsPlaceholder.digest {act : Action} {y x : Env} (hp : IsPlaceholder A Z act y x) :
     x.digest = y.digest := by
   cases act with
   | elide => simp only [IsPlaceholder] at hp; subst hp; rfl
-  | compress => exact compress_ok_digest Z hp
+  | compress => simp only [IsPlaceholder] at hp; subst hp; exact compressOrSelf_digest Z y
   | encrypt k n => simp only [IsPlaceholder] at hp; subst hp; rfl
 
 theorem IsPlaceholder.isObscured {act : Action} {y x : Env} (hp : IsPlaceholder A Z act y x) :
     x.isObscured = true := by
   cases act with
   | elide => simp only [IsPlaceholder] at hp; subst hp; rfl
-  | compress =>
-    have := compress_ok_isCompressed Z hp
-    simp [Env.isObscured, this]
+  | compress => simp only [IsPlaceholder] at hp; subst hp; exact compressOrSelf_isObscured Z y
   | encrypt k n => simp only [IsPlaceholder] at hp; subst hp; rfl
 
 /-- the hypothesis an action needs at the single element it is applied to -/
@@ -182,13 +199,7 @@ theorem obscure_ok_placeholder {act : Action} {e r : Env} (ha : ActOkAt act e.di
     (hr : obscure A Z act e = .ok r) : IsPlaceholder A Z act e r := by
   cases act with
   | elide => rw [obscure_elide] at hr; cases hr; rfl
-  | compress =>
-    simp only [obscure] at hr
-    simp only [IsPlaceholder]
-    cases hc : compress Z e with
-    | ok c => rw [hc] at hr; simpa using hr
-    | err x => rw [hc] at hr; cases hr
-    | panic x => rw [hc] at hr; cases hr
+  | compress => rw [obscure_compress] at hr; cases hr; rfl
   | encrypt k n =>
     rw [obscure_encrypt_ok A Z k n e ha] at hr; cases hr; rfl
 
@@ -196,7 +207,7 @@ theorem placeholder_obscure_ok {act : Action} {e r : Env} (ha : ActOkAt act e.di
     (hp : IsPlaceholder A Z act e r) : obscure A Z act e = .ok r := by
   cases act with
   | elide => simp only [IsPlaceholder] at hp; subst hp; exact obscure_elide A Z e
-  | compress => simp only [IsPlaceholder] at hp; simp only [obscure, hp]
+  | compress => simp only [IsPlaceholder] at hp; subst hp; exact obscure_compress A Z e
   | encrypt k n => simp only [IsPlaceholder] at hp; subst hp; exact obscure_encrypt_ok A Z k n e ha
 
 theorem obscure_ok_digest {act : Action} {e r : Env} (ha : ActOkAt act e.digest)
@@ -216,15 +227,16 @@ theorem obscure_ok_isObscured {act : Action} {e r : Env} (hr : obscure A Z act e
 theorem obscure_not_err (act : Action) (e : Env) (x : String) : obscure A Z act e ≠ .err x := by
   cases act with
   | elide => simp [obscure]
-  | compress => simp only [obscure]; split <;> simp
+  | compress => simp [obscure_compress]
   | encrypt k n => simp only [obscure]; exact newEncryptedUnwrap_not_err _ _ _
 
-/-- exactly when the compress action fails on a hit element: the `compress().unwrap()` -/
-theorem obscure_compress_ok_iff (e : Env) :
-    (∃ r, obscure A Z .compress e = .ok r) ↔ (e.isElided = false ∧ e.isEncrypted = false) := by
-  rw [← compress_ok_iff Z]
-  simp only [obscure]
-  cases compress Z e <;> simp
+/-- the action succeeds on every element (for `encrypt`: given the codec fact at its digest) -/
+theorem obscure_ok_of {act : Action} {e : Env} (ha : ActOkAt act e.digest) :
+    ∃ r, obscure A Z act e = .ok r := by
+  cases act with
+  | elide => exact ⟨_, obscure_elide A Z e⟩
+  | compress => exact ⟨_, obscure_compress A Z e⟩
+  | encrypt k n => exact ⟨_, obscure_encrypt_ok A Z k n e ha⟩
 
 end
 end EnvVerif
@@ -1028,14 +1040,13 @@ theorem digests_e0 : ∀ x ∈ elements e0, x.digest.val < 16 := by
 
 /-- the codec fact behind `AadOk`, as a decidable check -/
 def aadCheck (d : Digest) : Bool :=
-  (match Cbor.dec? (digestCbor d).enc with
-   | some c => digestOfCbor? c
-   | none => none) == some d
+  EncMsg.optDigest ⟨[], [], [], (digestCbor d).enc⟩ == some d
 
 theorem aadOk_of_check {d : Digest} (hc : aadCheck d = true) : AadOk d := by
   intro m hm
   simp only [aadCheck, beq_iff_eq] at hc
-  simp only [EncMsg.optDigest, hm]; exact hc
+  rw [← hc]
+  simp only [EncMsg.optDigest, hm]
 
 theorem aadCheck_range : (List.range 16).all (fun n => aadCheck ⟨n⟩) = true := by decide +kernel
 
@@ -1053,3 +1064,222 @@ theorem actOk_e0 (act : Action) : ActOk act e0 := by
 
 end Sample
 end EnvVerif
+
+namespace EnvVerif
+open Env
+
+section
+variable (h : Hash) (A : Aead) (Z : Deflate) (T : Digest → Bool) (rev : Bool) (act : Action)
+
+theorem ActOk.at_pos {e y : Env} {p : Path} (ha : ActOk act e) (hy : e.at p = some y) :
+    ActOkAt act y.digest := by
+  cases act with
+  | encrypt k n => exact ha p y hy
+  | _ => trivial
+
+/-- on a canonical, well-formed envelope the traversal succeeds for every action -/
+theorem elideSet_ok_inv {e : Env} (hi : Inv h e) (ha : ActOk act e) :
+    ∃ r, elideSet h A Z T rev act e = .ok r :=
+  (elideSet_ok_iff_inv h A Z T rev act hi ha).mpr
+    (fun _ _ ht => obscure_ok_of A Z (ha.at_pos act ht.1))
+
+end
+
+/-! ### whole-envelope operations -/
+
+section
+variable (h : Hash) (A : Aead) (Z : Deflate)
+
+theorem compressSubject_digest_inv {e r : Env} (hi : Inv h e)
+    (hr : compressSubject h Z e = .ok r) : r.digest = e.digest := by
+  unfold compressSubject at hr
+  split at hr
+  · cases hr; rfl
+  · rename_i hnc
+    cases hc : compress Z e.subject with
+    | ok s =>
+      rw [hc] at hr
+      simp only [Res.ok_bind] at hr
+      have hsd := compress_ok_digest Z hc
+      have hsc := compress_ok_isCompressed Z hc
+      have hsn : s.isNode = false := by cases s <;> simp_all [Env.isCompressed, Env.isNode]
+      cases e with
+      | node s0 as d =>
+        obtain ⟨hw, hk⟩ := hi
+        simp only [WF, Canon] at hw hk
+        rw [replaceSubject_node h hsn hk.2.2.2.1 hk.2.2.2.2] at hr
+        cases as with
+        | nil => exact absurd rfl hk.2.2.1
+        | cons a rest =>
+          simp only [Res.ok.injEq] at hr; subst hr
+          simp only [nodeOf, Env.digest, Env.subject] at hsd ⊢
+          rw [hsd]; exact hw.2.2.symm
+      | _ =>
+        simp only [replaceSubject, Env.assertions, List.foldl_nil, Res.ok.injEq] at hr
+        subst hr; exact hsd
+    | err x => rw [hc] at hr; cases hr
+    | panic x => rw [hc] at hr; cases hr
+
+theorem encryptSubject_digest_any {key nonce : Bytes} {e r : Env}
+    (hr : encryptSubject h A key nonce e = .ok r) : r.digest = e.digest := by
+  have fin : ∀ (x : Env) (d : Digest),
+      (if (x.digest == d) = true then Res.ok x
+        else Res.panic "encrypt.rs:encrypt_subject_opt:assert_eq") = Res.ok r → r.digest = d := by
+    intro x d hx
+    split at hx
+    · rename_i hd; cases hx; simpa using hd
+    · cases hx
+  cases e with
+  | node s as d =>
+    unfold encryptSubject at hr; simp only at hr
+    split at hr
+    · cases hr
+    · split at hr
+      · split at hr
+        · exact fin _ _ hr
+        · cases hr
+        · cases hr
+      · cases hr
+      · cases hr
+  | encrypted m d => unfold encryptSubject at hr; simp only [reduceCtorEq] at hr
+  | elided d => unfold encryptSubject at hr; simp only [reduceCtorEq] at hr
+  | _ =>
+    unfold encryptSubject at hr; simp only at hr
+    split at hr
+    · exact fin _ _ hr
+    · cases hr
+    · cases hr
+
+/-- `encrypt_subject` cannot panic on a canonical, well-formed envelope (given the codec
+fact at the subject's digest): neither `new_with_encrypted(..).unwrap()` nor the
+`assert_eq!` on the digests can fire -/
+theorem encryptSubject_not_panic_inv {key nonce : Bytes} {e : Env} (hi : Inv h e)
+    (ha : AadOk e.subject.digest) : ∀ s, encryptSubject h A key nonce e ≠ .panic s := by
+  intro site
+  have hnew : ∀ (x : Env) (site : String), AadOk x.digest →
+      newEncryptedUnwrap (encryptWithDigest A key nonce (encode x) x.digest) site =
+        .ok (.encrypted (encryptWithDigest A key nonce (encode x) x.digest) x.digest) :=
+    fun x site hx => newEncryptedUnwrap_ok_of (hx _ (encryptWithDigest_aad A ..)) site
+  cases e with
+  | node s as d =>
+    obtain ⟨hw, hk⟩ := hi
+    simp only [Env.subject] at ha
+    unfold encryptSubject; simp only
+    split
+    · simp
+    · have hne : as.isEmpty = false := by
+        simp only [Canon] at hk; cases as with
+        | nil => exact absurd rfl hk.2.2.1
+        | cons _ _ => rfl
+      have hasc : AscDigests as := by simp only [Canon] at hk; exact hk.2.2.2.1
+      rw [hnew s _ ha]
+      simp only [newNodeUnchecked, hne, Bool.false_eq_true, if_false]
+      rw [mkNode_of_inv h hw hasc (s' := .encrypted _ s.digest) rfl rfl]
+      simp [Env.digest]
+  | encrypted m d => (unfold encryptSubject; simp)
+  | elided d => (unfold encryptSubject; simp)
+  | leaf c d => simp only [Env.subject] at ha; unfold encryptSubject; simp only; rw [hnew _ _ ha]; simp [Env.digest]
+  | wrapped e d => simp only [Env.subject] at ha; unfold encryptSubject; simp only; rw [hnew _ _ ha]; simp [Env.digest]
+  | assertion p o d => simp only [Env.subject] at ha; unfold encryptSubject; simp only; rw [hnew _ _ ha]; simp [Env.digest]
+  | knownValue v d => simp only [Env.subject] at ha; unfold encryptSubject; simp only; rw [hnew _ _ ha]; simp [Env.digest]
+  | compressed c d => simp only [Env.subject] at ha; unfold encryptSubject; simp only; rw [hnew _ _ ha]; simp [Env.digest]
+
+end
+end EnvVerif
+
+/-! ### why `WF` alone is not enough: a well-formed node stored in the wrong order -/
+
+namespace EnvVerif
+namespace Sample
+open Env
+
+/-- order-sensitive toy hash -/
+def ordH : Hash := ⟨fun b => ⟨beNat b⟩⟩
+def x0 : Env := .elided ⟨0⟩
+def x1 : Env := .elided ⟨1⟩
+def x2 : Env := .elided ⟨2⟩
+/-- well-formed (every cached digest is the hash of the children in stored order) but the
+assertions are stored in descending digest order -/
+def cex : Env := nodeOf ordH x0 [x2, x1]
+
+theorem cex_wf : WF ordH cex := by
+  simp only [cex, nodeOf, WF, WFList, x0, x1, x2, and_self]
+
+theorem sort_x2_x1 : sortByDigest [x2, x1] = [x1, x2] := by
+  have hp : (sortByDigest [x2, x1]).Perm [x1, x2] :=
+    (sortByDigest_perm _).trans (List.Perm.swap _ _ _)
+  have hs2 : [x1, x2].Pairwise (fun a b => digestLe a b = true) := by
+    simp [x1, x2, digestLe, Env.digest]
+  refine List.Perm.eq_of_pairwise ?_ (sortByDigest_sorted _) hs2 hp
+  intro a b ha hb hab hba
+  rw [mem_sortByDigest] at ha
+  simp only [List.mem_cons, List.not_mem_nil, or_false] at ha hb
+  rcases ha with rfl | rfl <;> rcases hb with rfl | rfl <;>
+    first | rfl | (simp [x1, x2, digestLe, Env.digest] at hab hba)
+
+section
+variable (A : Aead) (Z : Deflate)
+theorem cex_run : elideSet ordH A Z (fun _ => false) false .elide cex = .ok (nodeOf ordH x0 [x1, x2]) := by
+  rw [cex, nodeOf, elideSet_node_ok_iff ordH A Z _ _ _ rfl]
+  refine ⟨x0, [x2, x1], rfl, rfl, rfl, by simp, ?_⟩
+  simp only [mkNode, sort_x2_x1, nodeOf]
+
+theorem cex_digest_ne : (nodeOf ordH x0 [x1, x2]).digest ≠ cex.digest := by decide +kernel
+
+theorem cex_wrapped_panics : elideSet ordH A Z (fun _ => false) false .elide (newWrapped ordH cex) =
+    .panic "elide.rs:elide_set_with_action:assert-wrapped" := by
+  have hne : ((nodeOf ordH x0 [x1, x2]).digest != cex.digest) = true := by
+    simpa using cex_digest_ne
+  simp only [newWrapped, elideSet, cex_run, hne]
+  rfl
+end
+end Sample
+end EnvVerif
+
+namespace EnvVerif
+open Env
+
+/-! ### byte-level facts about placeholders, and an `AgreeOutside` sample -/
+
+theorem head_2_32 : Cbor.head 2 32 = [0x58, 0x20] := by decide
+theorem head_6_200 : Cbor.head 6 200 = [0xd8, 0xc8] := by decide
+theorem head_6_40001 : Cbor.head 6 40001 = [0xd9, 0x9c, 0x41] := by decide
+
+theorem digestCbor_enc_nonempty (d : Digest) : ((digestCbor d).enc).isEmpty = false := by
+  simp only [digestCbor, Cbor.enc, TAG_DIGEST, head_6_40001]
+  rfl
+
+theorem bne_false_fun (T : Digest → Bool) : (fun d => T d != false) = T := by funext d; simp
+theorem bne_true_fun (T : Digest → Bool) : (fun d => T d != true) = (fun d => !T d) := by
+  funext d; simp
+
+namespace Sample
+
+/-- target set: the digest of the first assertion of `e0` -/
+def T3 : Digest → Bool := fun d => d == ⟨3⟩
+
+theorem e0'_digest : e0'.digest = ⟨15⟩ := by decide +kernel
+
+/-- `e0` and `e0'` differ (below the first assertion) but agree outside `T3` -/
+theorem agree_e0_e0' : AgreeOutside T3 e0 e0' := by
+  apply AgreeOutside.visible
+  · exact ⟨e0_digest.trans e0'_digest.symm, rfl⟩
+  · intro s c1 c2 h1 h2
+    cases s <;> simp only [e0, e0', nodeOf, Env.child, reduceCtorEq] at h1 h2
+    · cases h1; cases h2; exact AgreeOutside.refl _ _
+    · rename_i i
+      match i with
+      | 0 =>
+        simp at h1 h2; subst h1; subst h2
+        exact AgreeOutside.hidden a1_digest (by rw [a1_digest]; rfl)
+      | 1 => simp at h1 h2; subst h1; subst h2; exact AgreeOutside.refl _ _
+      | n + 2 => simp at h1
+
+theorem e0_ne_e0' : e0 ≠ e0' := by
+  intro he
+  simp only [e0, e0', nodeOf, a1, newAssertion, Env.node.injEq, List.cons.injEq, reduceCtorEq,
+    false_and, and_false] at he
+
+end Sample
+end EnvVerif
+
